@@ -202,7 +202,18 @@ fn run_one(bin: &str, cfg: &Cfg, programs: &[Vec<u8>]) -> (Vec<String>, Vec<Stri
     let mut ttl_probe_done = false;
     for (pi, prog) in programs.iter().enumerate() {
         ops.push(format!("ext {} {}", cfg.item_limit, cfg.args().join(" ")));
-        let proc_ = match spawn(bin, cfg) {
+        // (a port that something else took between the probe and the child's bind is not the server's fault: other ports)
+        let mut cfg_owned = Cfg { runtime: cfg.runtime, threads: cfg.threads, eviction: cfg.eviction, item_limit: cfg.item_limit, conn_limit: cfg.conn_limit, port: cfg.port, memory: cfg.memory };
+        let mut spawned = spawn(bin, &cfg_owned);
+        for _ in 0..3 {
+            if spawned.is_some() {
+                break;
+            }
+            cfg_owned.port = crate::net::free_port();
+            spawned = spawn(bin, &cfg_owned);
+        }
+        let cfg = &cfg_owned;
+        let proc_ = match spawned {
             Some(p) => p,
             None => {
                 outs.push("spawn-failed".into());
